@@ -1,5 +1,6 @@
 import RlibModel.Lemmas.ReaderDecimal
 import RlibModel.Lemmas.ReaderSched
+import RlibModel.Lemmas.ReaderDomain
 /-!
 # C08 — Reader results depend only on the input bytes, not on delivery
 
@@ -178,6 +179,20 @@ theorem read_rendered_int (t : IntTy) (h8 : 8 ≤ t.bits) (x : Int) (hx : t.fits
     ∃ s', readInt t fuel s = .ok (x, s') ∧ R s' = tail ∧ Inv BUF s' :=
   (readInt_spec t BUF hB fuel s hi hf).2 x tail (by rw [hR]; exact specInt_render t h8 x hx hs ws tail hws htail)
 
+/-- **in_domain_int** — what the property promises for integers, stated without the model's digit loop: when the
+    next token is `-?[0-9]+` (`-` only for signed types) and its positional value `tokValue` is representable in `t`
+    (`validIntTok`), the specification of `read::<t>()` is that value, no panic; with `read_int_refines` the
+    reader returns it under every delivery. Outside `validIntTok` the driver prints no constraint (`~`). -/
+theorem in_domain_int (t : IntTy) (h8 : 8 ≤ t.bits) (rest : List UInt8) (hv : validIntTok t (specString rest).1 = true) :
+    specInt t rest = .ok (tokValue (specString rest).1, (specString rest).2) :=
+  specInt_valid t h8 rest hv
+
+/-- Inside the domain (`inDomAtom`: valid integer token / some token / some non-blank byte left) every atom read is
+    specified and panic-free. -/
+theorem in_domain_atom (a : Atom) (rest : List UInt8) (h8 : atomBits8 a) (hd : inDomAtom a rest = true) :
+    ∃ v r, specAtom a rest = some (.ok (v, r)) ∧ (∀ t, a = .int t → v = .int (tokValue (specString rest).1)) :=
+  specAtom_inDom a rest h8 hd
+
 /-! ### Non-vacuity: the hypotheses are met by concrete, non-trivial states, and the conclusions say
 something (all evaluated by the kernel on the definitions the driver runs) -/
 
@@ -263,5 +278,16 @@ example : specInt IntTy.i64 (render (-9223372036854775808) ++ [32]) = .ok (-9223
   have := parse_render IntTy.i64 (by decide) (-9223372036854775808) (by decide +kernel) (fun _ => rfl) [] [32] (by simp)
     (Or.inr ⟨32, [], rfl, by decide⟩)
   simpa using this
+
+/-- domain: `007`, `-0`, `-128` are valid `i8` tokens with values 7, 0, −128; `128`, `+5`, `:`, `-` and `-5` as `u8` are not -/
+example : validIntTok ⟨true, 8⟩ [48, 48, 55] = true ∧ tokValue [48, 48, 55] = 7 ∧ validIntTok ⟨true, 8⟩ [45, 48] = true ∧
+    validIntTok ⟨true, 8⟩ [45, 49, 50, 56] = true ∧ tokValue [45, 49, 50, 56] = -128 ∧
+    validIntTok ⟨true, 8⟩ [49, 50, 56] = false ∧ validIntTok ⟨true, 32⟩ [43, 53] = false ∧ validIntTok ⟨false, 8⟩ [58] = false ∧
+    validIntTok ⟨true, 8⟩ [45] = false ∧ validIntTok ⟨false, 8⟩ [45, 53] = false := by decide +kernel
+example : specInt ⟨true, 8⟩ [32, 45, 49, 50, 56, 10, 55] = .ok (-128, [10, 55]) :=
+  in_domain_int ⟨true, 8⟩ (by decide) [32, 45, 49, 50, 56, 10, 55] (by decide +kernel)
+/-- the in-domain prefix of a script ends at the first invalid token: `1 1234 5` read as three `u8` -/
+example : domPrefix [.read (.int ⟨false, 8⟩), .read (.int ⟨false, 8⟩), .read (.int ⟨false, 8⟩)] [49, 32, 49, 50, 51, 52, 32, 53] = 1 := by
+  decide +kernel
 
 end Rlib.C08
